@@ -138,6 +138,8 @@ pub fn run(args: &[String]) {
     let (mut ci, mut cj) = (0usize, 0usize);
     let mut abnormal = 0u64;
     let mut restarts = 0u64;
+    let mut confirmed: std::collections::HashSet<(usize, usize)> = std::collections::HashSet::new();
+    let mut unconfirmed = 0i64; // abnormal ends that did not happen again when the case was run a second time
     while ci < cases.len() {
         std::fs::write(&progress, "").unwrap();
         let mut child = std::process::Command::new(&exe).arg("c07-worker").arg(&args[0]).arg(ci.to_string()).arg(&progress).arg(&root).arg(cj.to_string())
@@ -172,6 +174,15 @@ pub fn run(args: &[String]) {
                     let why = if exited.is_some() { "abort" } else { "hang" };
                     let _ = child.kill();
                     let _ = child.wait();
+                    // an abnormal end counts only when it happens again: the case is run once more in a new worker (a sequence
+                    // from its first invocation, so that its state is rebuilt; an independent invocation on its own)
+                    if confirmed.insert((i, j)) {
+                        unconfirmed += 1;
+                        ci = i;
+                        cj = if cases[i].get("fresh").and_then(|x| x.as_bool()).unwrap_or(false) { j } else { 0 };
+                        break;
+                    }
+                    unconfirmed -= 1;
                     abnormal += 1;
                     results[i][j] = why.to_string();
                     ci = i;
@@ -205,5 +216,6 @@ pub fn run(args: &[String]) {
     s.set("invocations", json!(invocations));
     s.set("abnormal", json!(abnormal));
     s.set("worker_starts", json!(restarts));
+    s.set("not_reproduced", json!(unconfirmed));
     s.finish();
 }
